@@ -165,6 +165,8 @@ def discharge_local(ctx, site, extra_facts=()):
     xp, xe = xs(ctx, site.fn)
     t = site.term
     bi = site.bi
+    if 'false' in [pretty(z) for z in xe.facts_at(bi)]:
+        return ('DEAD', 'the site is guarded by a constant-false condition (cfg!(debug_assertions) in this configuration)')
     c = _constraints(xe, bi, extra_facts)
     if site.kind == 'assert':
         msg = t['msg']
